@@ -81,6 +81,27 @@ def tag_path(rng, tag, addrs=None, elem=None, numeric=None):
     return path
 
 
+def alias_violation(case, addrs):
+    """The configured tags are separate arrays: two names designate one Attribute only if both were configured at the
+    same explicit address, and an explicitly addressed tag lives where it was put."""
+    seen = {}
+    for t in case["tags"]:
+        a = tuple(addrs[t["name"]])
+        if t.get("addr") is not None and tuple(t["addr"]) != a:
+            return f"tag {t['name']} configured at {tuple(t['addr'])} lives at {a}"
+        o = seen.get(a)
+        if o is not None and (t.get("addr") is None or o.get("addr") is None):
+            return f"tags {o['name']} and {t['name']} share one Attribute {a}: a write to one changes the other"
+        seen.setdefault(a, t)
+    return None
+
+
+def many_tags(rng, n=None, types=("DINT", "INT", "SINT", "REAL")):
+    """more tags than one decimal digit counts: auto-allocated Attribute ids pass 9 -> 10 -> 11"""
+    n = n or rng.randint(11, 16)
+    return [{"name": f"Tg{k}", "type": rng.choice(types), "len": rng.choice([1, 2, 3]), "addr": None} for k in range(n)]
+
+
 class ArraySpec:
     """The property's own model: a set of fixed-length typed arrays.  Elements are kept as the bytes the
     tag's type encodes them to (what any read can show)."""
@@ -244,6 +265,9 @@ def oracle_history(case, out, check_errors=False, check_bundle=False):
          (the dump check does that for every request); no reply may be unproducible."""
     if out.startswith("harness-exception"):
         return out
+    why = alias_violation(case, case["addrs"])
+    if why:
+        return why
     if not case["reqs"]:
         return None
     spec = ArraySpec(case, case["addrs"])
